@@ -2380,3 +2380,99 @@ func ruleAllRequestedPagesValidated(c *eng.Ctx) {
 		c.Check(len(bad) == 0, R, name+"#validation-loop", h.Instrs[0].Pos(), "the validating loop runs over every requested number", "the loop that validates the requested page numbers can be left before all of them were looked at ("+strings.Join(bad, "; ")+"): numbers after that point are never checked against the page count")
 	}
 }
+
+// ---------------------------------------------------------------------------------------------------------------
+// R11.11 a marginal candidate remembers the distance that admitted it.
+
+// R11.11 [C11]
+func ruleCandidateKeepsEdgeDistance(c *eng.Ctx) {
+	const R = "R11.11-CANDIDATE-KEEPS-EDGE-DISTANCE"
+	c.Rule(R, "the vertical position stored in a header/footer candidate is the distance from the page edge that was compared with the marginal band height to admit it (on every branch of the coordinate-system and header/footer cases), not the fragment's own Y: positions of the same running header are compared across pages, and absolute coordinates differ between pages of different height", 1, 0)
+	fn := c.P.Func("layout.(*HeaderFooterDetector).extractCandidates")
+	if fn == nil {
+		c.Undec(R, "layout.(*HeaderFooterDetector).extractCandidates", token.NoPos, "anchor not found")
+		return
+	}
+	cluster := eng.Cluster(fn, 1)
+	// band heights: values derived from the configured region heights
+	isBand := func(v ssa.Value) bool {
+		for w := range eng.Slice(v, nil) {
+			if fr, ok := eng.LoadOfField(w); ok && (fr.Field == "HeaderRegionHeight" || fr.Field == "FooterRegionHeight") {
+				return true
+			}
+		}
+		return false
+	}
+	admitted := map[ssa.Value]bool{}
+	for _, h := range cluster {
+		if h.Pkg != fn.Pkg {
+			continue
+		}
+		eng.Instrs(h, true, func(in ssa.Instruction) {
+			b, ok := in.(*ssa.BinOp)
+			if !ok {
+				return
+			}
+			switch b.Op {
+			case token.LSS, token.LEQ:
+				if isBand(b.Y) {
+					admitted[b.X] = true
+				}
+			case token.GTR, token.GEQ:
+				if isBand(b.X) {
+					admitted[b.Y] = true
+				}
+			}
+		})
+	}
+	if len(admitted) == 0 {
+		c.Ok(R, eng.FuncName(fn)+"#Y", fn.Pos(), "not evaluated: no comparison of a distance with the configured band height in this function")
+		return
+	}
+	n := 0
+	for _, h := range cluster {
+		if h.Pkg != fn.Pkg {
+			continue
+		}
+		eng.Instrs(h, true, func(in ssa.Instruction) {
+			sto, ok := in.(*ssa.Store)
+			if !ok {
+				return
+			}
+			fr, ok := eng.AsField(sto.Addr)
+			if !ok || fr.Field != "Y" || !strings.HasSuffix(fr.Struct, ".candidate") {
+				return
+			}
+			n++
+			// every value the stored one can be is an admitted distance
+			var bad []string
+			seen := map[ssa.Value]bool{}
+			var walk func(v ssa.Value)
+			walk = func(v ssa.Value) {
+				if seen[v] {
+					return
+				}
+				seen[v] = true
+				if admitted[v] {
+					return
+				}
+				if ph, ok := v.(*ssa.Phi); ok {
+					for _, e := range ph.Edges {
+						walk(e)
+					}
+					return
+				}
+				if k, ok := v.(*ssa.Const); ok && k.Value != nil {
+					return // the zero a declaration starts with, overwritten on every branch that admits
+				}
+				bad = append(bad, v.String()+" at "+c.P.Pos(v.Pos()))
+			}
+			walk(sto.Val)
+			sort.Strings(bad)
+			c.Check(len(bad) == 0, R, fmt.Sprintf("%s#Y@%s", eng.FuncName(in.Parent()), c.P.Pos(sto.Pos())), sto.Pos(), "the stored position is the admitted distance", "the position stored in the candidate is not the distance that was compared with the band height ("+strings.Join(bad, "; ")+"): the consistency test across pages then compares coordinates that depend on the page height")
+		})
+	}
+	if n == 0 {
+		c.Ok(R, eng.FuncName(fn)+"#Y", fn.Pos(), "not evaluated: no store to candidate.Y in this function")
+	}
+}
